@@ -1,5 +1,6 @@
 mod api;
 mod db;
+mod lexrun;
 mod render;
 mod run;
 mod value;
@@ -13,6 +14,8 @@ fn main() {
     }
     let code = match args[0].as_str() {
         "run" => run::main(&args[1..]),
+        "lexrun" => lexrun::main(&args[1..]),
+        "lexlist" => lexrun::main_list(&args[1..]),
         "render" => {
             // stdin: one program per line -> PRQL text
             let dbset: serde_json::Value =
